@@ -202,7 +202,9 @@ func (s *state) applyWatched(op Op, reqs map[string]project.RequirementConfig) (
 		full string
 		err  error
 	}
-	limits := []time.Duration{30 * time.Second, 60 * time.Second}
+	// wall-clock limits are no evidence on a busy machine: three attempts, the last one long enough
+	// for a millisecond operation on a machine oversubscribed a thousand times
+	limits := []time.Duration{30 * time.Second, 120 * time.Second, 300 * time.Second}
 	if hangConfirmed {
 		limits = []time.Duration{10 * time.Second} // while shrinking a confirmed hang
 	}
@@ -259,7 +261,7 @@ func exec(c Case) (v ev.Verdict) {
 		}
 		res, full, err, hung := s.applyWatched(op, reqs)
 		if hung {
-			return ev.Failf("operation-hangs", "%s on %v has not returned after 30 s (and 60 s on a second attempt)", where, reqs)
+			return ev.Failf("operation-hangs", "%s on %v has not returned after 30 s (nor after 120 s and 300 s on further attempts)", where, reqs)
 		}
 		if full != "" {
 			where = fmt.Sprintf("op %d (get %s)", n, full)
@@ -432,7 +434,7 @@ func exec(c Case) (v ev.Verdict) {
 		res2, _, err := s.apply(op, res)
 		if err != nil {
 			if op.Kind == "get" {
-				q := strings.TrimPrefix(full[len(p):], "@")
+				q := s.lastQ
 				r2, decided2, _ := refResolve(u, bl2, p, q)
 				if !decided2 {
 					// prefix / branch query: it resolves to the same version both times, which the
